@@ -29,15 +29,32 @@ def startsFrom : Nat → List (List Nat) → List Nat
   | _, [] => []
   | o, l :: ls => o :: startsFrom (o + l.length) ls
 
-def endsWithBreak (bs : List Nat) : Bool :=
-  match bs.getLast? with
-  | some b => b = 10 || b = 13
-  | none => false
+/-- The lines a *line index* distinguishes: like `splitLines`, but the text after the last break is
+    always a line of its own (possibly empty), so there are always `breaks + 1` of them. -/
+def indexLines : List Nat → List (List Nat)
+  | [] => [[]]
+  | 10 :: rest => [10] :: indexLines rest
+  | 13 :: 10 :: rest => [13, 10] :: indexLines rest
+  | 13 :: rest => [13] :: indexLines rest
+  | b :: rest =>
+    match indexLines rest with
+    | [] => [[b]]          -- unreachable: `indexLines` is never empty
+    | l :: ls => (b :: l) :: ls
 
-/-- The lines a *line index* distinguishes: the last line is the (possibly empty) text after the
-    last break, so there are always `breaks + 1` of them. -/
-def indexLines (bs : List Nat) : List (List Nat) :=
-  if bs.isEmpty || endsWithBreak bs then splitLines bs ++ [[]] else splitLines bs
+/-- zero-based row of an offset, given the line starts: the last line starting at or before it -/
+def rowOf (starts : List Nat) (off : Nat) : Nat := starts.countP (· ≤ off) - 1
+
+/-- The newline iterator read as a double-ended queue over the reference lines:
+    `true` pops the first remaining line, `false` the last; offsets are those of the lines in the
+    original text (which starts at offset `o`). -/
+def runDeque : List (List Nat) → Nat → List Bool → List (Bool × Option (List Nat × Nat))
+  | _, _, [] => []
+  | [], o, op :: ops => (op, none) :: runDeque [] o ops
+  | l :: ls, o, true :: ops => (true, some (l, o)) :: runDeque ls (o + l.length) ops
+  | l :: ls, o, false :: ops =>
+    let all := l :: ls
+    let last := all.getLast?.getD []
+    (false, some (last, o + all.dropLast.flatten.length)) :: runDeque all.dropLast o ops
 
 /-- A range read as the set of offsets it spans. -/
 def mem (s e x : Nat) : Prop := s ≤ x ∧ x < e
